@@ -148,9 +148,14 @@ def run(ctx, eng):
           if e.kind == 'write' and e.attr == 'max_window_size']
     ok = bool(mx) and all(
         cm.show0(e.value) == 'self.current_window_size + size' for e in mx)
-    grew = any(cm.mk_aff_key('>', {'self.current_window_size': 1, 'size': 1,
-                                   'self.max_window_size': -1}, 0)
-               in cm.assume_keys(p) for p in cm.normal_paths(paths))
+    # exactly when: written on the paths where the window outgrew the
+    # maximum and on no other
+    gk = cm.mk_aff_key('>', {'self.current_window_size': 1, 'size': 1,
+                             'self.max_window_size': -1}, 0)
+    grew = bool(mx) and all(
+        (gk in cm.assume_keys(p)) == any(
+            e.kind == 'write' and e.attr == 'max_window_size'
+            for e in p.events) for p in cm.normal_paths(paths))
     ctx.ob('ARITH.open', f4.qual, 'maximum follows a larger window', ok and
            grew, 'max_window_size = current when the window outgrows it',
            node=f4.node)
@@ -303,16 +308,16 @@ def run(ctx, eng):
                        H + '_inbound_flow_control_change_from_settings'},
            'called from %s' % sorted(c.split('.')[-1] for c in callers))
     f9 = m.func(H + '_local_settings_acked')
-    ok = False
+    ok = cm.Every()
     for p in cm.normal_paths(eng.I.run(f9)):
         cs = [e for e in p.events if e.kind == 'call' and
               H + '_inbound_flow_control_change_from_settings' in e.names]
         if cs:
             a = [cm.show0(x) for x in cs[0].args]
             from .c11 import code_facts
-            ok = len(a) == 2 and a[0].endswith('.original_value') and \
-                a[1].endswith('.new_value') and \
-                code_facts(p).get('INITIAL_WINDOW_SIZE') is True
+            ok(len(a) == 2 and a[0].endswith('.original_value') and
+               a[1].endswith('.new_value') and
+               code_facts(p).get('INITIAL_WINDOW_SIZE') is True)
     ctx.ob('FLOW.delta', f9.qual, 'delta of the acknowledged change', ok,
            '(original_value, new_value) of INITIAL_WINDOW_SIZE', node=f9.node)
     f10 = m.func(H + '_inbound_flow_control_change_from_settings')
@@ -340,17 +345,17 @@ def run(ctx, eng):
     ctx.ob('FLOW.delta', f10.qual, 'delta reaches every live stream', n > 0
            and not bad, '; '.join(sorted(set(bad))) or 'ok', node=f10.node)
     f11 = m.func('stream.H2Stream._inbound_flow_control_change_from_settings')
-    ok = False
+    ok = cm.Every()
     for p in cm.normal_paths(eng.I.run(f11)):
         wo = cm.calls_to(p, 'window_opened')
         mw = [e for e in p.events if e.kind == 'write' and
               e.attr == 'max_window_size' and e.frame == f11.qual]
-        ok = len(wo) == 1 and wo[0].args[0] == ('p', 'delta') and \
-            len(mw) == 1 and cm.aff_is(mw[0].value, {
-                'delta': 1,
-                'self._inbound_window_manager.max_window_size': 1}) and \
-            p.index(mw[0]) > p.index(wo[0]) and \
-            cm.reads_entry_value(mw[0].value, 'max_window_size')
+        ok(len(wo) == 1 and wo[0].args[0] == ('p', 'delta') and
+           len(mw) == 1 and cm.aff_is(mw[0].value, {
+               'delta': 1,
+               'self._inbound_window_manager.max_window_size': 1}) and
+           p.index(mw[0]) > p.index(wo[0]) and
+           cm.reads_entry_value(mw[0].value, 'max_window_size'))
     ctx.ob('FLOW.delta', f11.qual, 'window and maximum move by the delta',
            ok, 'window_opened(delta); max_window_size = old maximum + '
            'delta (the maximum as it was BEFORE window_opened, which raises '
@@ -366,15 +371,14 @@ def run(ctx, eng):
            node=f12.node)
     # ---- (f) remote_flow_control_window
     f13 = m.func(H + 'remote_flow_control_window')
-    ok = False
+    ok = cm.Every()
     for p in cm.normal_paths(eng.I.run(f13)):
         v = p.value
-        if v[0] == 'call' and v[1] == 'min' and len(v[2]) == 2:
-            s = sorted(cm.show0(a) for a in v[2])
-            ok = s == sorted([
-                'self.inbound_flow_control_window',
-                'connection.H2Connection._get_stream_by_id(self, stream_id)'
-                '.inbound_flow_control_window'])
+        ok(bool(v) and v[0] == 'call' and v[1] == 'min' and
+           len(v[2]) == 2 and sorted(cm.show0(a) for a in v[2]) == sorted([
+               'self.inbound_flow_control_window',
+               'connection.H2Connection._get_stream_by_id(self, stream_id)'
+               '.inbound_flow_control_window']))
     ctx.ob('FLOW.min', f13.qual, 'minimum of the two advertised windows', ok,
            'min(connection, stream) inbound windows', node=f13.node)
     for q, exp in ((H + 'inbound_flow_control_window',
